@@ -1,0 +1,12 @@
+//go:build verif
+
+package packets
+
+import "bytes"
+
+// VerifEncodeLength exposes encodeLength to the verification harness.
+func VerifEncodeLength(n int64) []byte {
+	var b bytes.Buffer
+	encodeLength(&b, n)
+	return b.Bytes()
+}
